@@ -47,6 +47,7 @@ struct world
     std::vector<std::string> names;
     sqlite3* conn = nullptr;
     bool want_raw = false, want_rep = false, auto_reopen = false, want_stmts = false, sweep = false, noobs = false, crash = false;
+    bool u8 = false;   // name tokens of the model are given to the library as names with multi-byte UTF-8 characters
     bool dead = false;  // rest of this execution is skipped
     int64_t max_id_seen = 0, max_tid_seen = 0;
     int ntracks_created = 0;
@@ -54,6 +55,34 @@ struct world
 
 std::string g_tmp_root;
 int g_dir_counter = 0;
+
+// Flag "u8": the model's name tokens ("a", "b", ...) reach the library as names holding 2-, 3- and 4-byte UTF-8
+// sequences before and after an ASCII letter; everything read back (names, stored paths) is translated back to tokens
+// before it is logged, so the specifications keep talking about tokens.  A name the library mangles is logged as found.
+const std::vector<std::pair<std::string, std::string>>& u8_table()
+{
+    static const std::vector<std::pair<std::string, std::string>> t = {
+        {"a", "\xc3\x84" "a"}, {"b", "b\xe2\x99\xaa"}, {"c", "\xf0\x9f\x8e\xb5" "c"}, {"d", "\xc3\xa9\xc3\xa9" "d"},
+        {"e", "e\xc3\xb8"}, {"f", "\xe6\x97\xa5" "f"}, {"g", "g\xc3\x9f"}, {"h", "\xd0\x96h"}};
+    return t;
+}
+std::string enc_name(const world& w, const std::string& tok)
+{
+    if (w.u8)
+        for (auto& [t, r] : u8_table())
+            if (t == tok)
+                return r;
+    return tok;
+}
+std::string dec_text(const world& w, std::string s)
+{
+    if (!w.u8)
+        return s;
+    for (auto& [t, r] : u8_table())
+        for (size_t pos = 0; (pos = s.find(r, pos)) != std::string::npos; pos += t.size())
+            s.replace(pos, r.size(), t);
+    return s;
+}
 
 json ids_of(const std::vector<dj::crate>& v)
 {
@@ -103,7 +132,7 @@ json observe(world& w)
         json r;
         r["id"] = c.id();
         r["v"] = c.is_valid();
-        r["nm"] = c.name();
+        r["nm"] = dec_text(w, c.name());
         auto p = c.parent();
         r["par"] = p ? json::array({p->id()}) : json::array();
         r["ch"] = ids_of(c.children());
@@ -112,7 +141,7 @@ json observe(world& w)
         json sub = json::array();
         for (auto& n : w.names)
         {
-            auto s = c.sub_crate_by_name(n);
+            auto s = c.sub_crate_by_name(enc_name(w, n));
             sub.push_back({{"n", n}, {"r", s ? json::array({s->id()}) : json::array()}});
         }
         r["sub"] = sub;
@@ -130,8 +159,8 @@ json observe(world& w)
     json byname = json::array(), rootby = json::array();
     for (auto& n : w.names)
     {
-        byname.push_back({{"n", n}, {"r", ids_of(db.crates_by_name(n))}});
-        auto r = db.root_crate_by_name(n);
+        byname.push_back({{"n", n}, {"r", ids_of(db.crates_by_name(enc_name(w, n)))}});
+        auto r = db.root_crate_by_name(enc_name(w, n));
         rootby.push_back({{"n", n}, {"r", r ? json::array({r->id()}) : json::array()}});
     }
     o["byname"] = byname;
@@ -220,6 +249,20 @@ json raw_state(world& w)
             r["ltl"] = rr.rows("SELECT listId, listType, trackId FROM ListTrackList ORDER BY 1,2,3", "iii");
         }
     }
+    if (w.u8)
+    {
+        auto dec = [&](const char* key, std::initializer_list<size_t> cols) {
+            if (!r.contains(key))
+                return;
+            for (auto& row : r[key])
+                for (size_t c : cols)
+                    if (row.is_array() && c < row.size() && row[c].is_string())
+                        row[c] = dec_text(w, row[c].get<std::string>());
+        };
+        dec("pl", {1});
+        dec("crate", {1, 2});
+        dec("list", {2, 3});
+    }
     r["integrity"] = rr.text("PRAGMA integrity_check");
     json fk = json::array();
     rr.query("PRAGMA foreign_key_check", [&](sqlite3_stmt* st) {
@@ -268,6 +311,7 @@ void start_world(world& w, const json& r)
     w.want_stmts = r.value("stmts", false);
     w.sweep = r.value("sweep", false);
     w.noobs = r.value("noobs", false);
+    w.u8 = r.value("u8", false);
     w.crash = r.value("crash", false) && r.value("mode", "mem") == "disk";
     for (auto& n : r.value("names", json::array()))
         w.names.push_back(n.get<std::string>());
@@ -462,8 +506,9 @@ void exec_op(world& w, const json& op)
     {
         if (name == "create_root")
         {
-            auto n = expand_name(op.at("n").get<std::string>());
-            rec["n"] = n;
+            auto ntok = expand_name(op.at("n").get<std::string>());
+            auto n = enc_name(w, ntok);
+            rec["n"] = ntok;
             f = [&w, n, &newid] {
                 auto c = w.db->create_root_crate(n);
                 newid = c.id();
@@ -472,9 +517,10 @@ void exec_op(world& w, const json& op)
         }
         else if (name == "create_root_after")
         {
-            auto n = expand_name(op.at("n").get<std::string>());
+            auto ntok = expand_name(op.at("n").get<std::string>());
+            auto n = enc_name(w, ntok);
             auto& a = C(w, op, "after");
-            rec["n"] = n;
+            rec["n"] = ntok;
             rec["after"] = a.id();
             f = [&w, n, &a, &newid] {
                 auto c = w.db->create_root_crate_after(n, a);
@@ -484,9 +530,10 @@ void exec_op(world& w, const json& op)
         }
         else if (name == "create_sub")
         {
-            auto n = expand_name(op.at("n").get<std::string>());
+            auto ntok = expand_name(op.at("n").get<std::string>());
+            auto n = enc_name(w, ntok);
             auto& p = C(w, op, "c");
-            rec["n"] = n;
+            rec["n"] = ntok;
             rec["c"] = p.id();
             f = [&w, n, &p, &newid] {
                 auto c = p.create_sub_crate(n);
@@ -496,10 +543,11 @@ void exec_op(world& w, const json& op)
         }
         else if (name == "create_sub_after")
         {
-            auto n = expand_name(op.at("n").get<std::string>());
+            auto ntok = expand_name(op.at("n").get<std::string>());
+            auto n = enc_name(w, ntok);
             auto& p = C(w, op, "c");
             auto& a = C(w, op, "after");
-            rec["n"] = n;
+            rec["n"] = ntok;
             rec["c"] = p.id();
             rec["after"] = a.id();
             f = [&w, n, &p, &a, &newid] {
@@ -510,9 +558,10 @@ void exec_op(world& w, const json& op)
         }
         else if (name == "set_name")
         {
-            auto n = expand_name(op.at("n").get<std::string>());
+            auto ntok = expand_name(op.at("n").get<std::string>());
+            auto n = enc_name(w, ntok);
             auto& c = C(w, op, "c");
-            rec["n"] = n;
+            rec["n"] = ntok;
             rec["c"] = c.id();
             f = [n, &c] { c.set_name(n); };
         }
